@@ -695,8 +695,10 @@ def do_mapping(molecule, mappings, to_ff, attribute_keep=(), attribute_must=(), 
         for mol_idx, mol_jdx in edges:
             # Subtract none_to_one_mappings, since those should not be made to
             # connect to things automatically.
-            out_idxs = mol_to_out[mol_idx].keys() - none_to_one_mappings
-            out_jdxs = mol_to_out[mol_jdx].keys() - none_to_one_mappings
+            # Do not create entries in mol_to_out: atoms without one are the
+            # uncovered atoms reported below.
+            out_idxs = mol_to_out.get(mol_idx, {}).keys() - none_to_one_mappings
+            out_jdxs = mol_to_out.get(mol_jdx, {}).keys() - none_to_one_mappings
             for out_idx, out_jdx in product(out_idxs, out_jdxs):
                 if out_idx != out_jdx:
                     graph_out.add_edge(out_idx, out_jdx)
